@@ -77,6 +77,9 @@ TbClone == /\ TbCall("clone")
               ELSE Report(e, "clone", tbl[e.from]) /\ tbl' = tbl /\ lost' = lost \cup {e.h}
            /\ Keep
 TbDefault == Construct("default", LAMBDA e : TFilled(Len(EN), 0))
-Next == LoadDef \/ TbNew \/ TbFilled \/ TbClosure \/ TbTransform \/ TbWrite \/ TbRead \/ TbDisabled \/ TbAll \/ TbAllOk \/ TbClone \/ TbDefault
+Panicked == /\ IsEvent("panic")
+            /\ Mismatch(l, "panic in generated code", [def |-> Rec[l].def, msg |-> Rec[l].msg])
+            /\ UNCHANGED <<tbl, lost>> /\ Keep
+Next == Panicked \/ LoadDef \/ TbNew \/ TbFilled \/ TbClosure \/ TbTransform \/ TbWrite \/ TbRead \/ TbDisabled \/ TbAll \/ TbAllOk \/ TbClone \/ TbDefault
 Spec == Init /\ [][Next]_vars
 =============================================================================
